@@ -25,17 +25,29 @@ RULE = ("inputs = every registry over N style ids (basedOn of each style in ids 
         "GetStyleInfo (+ Clone ops, resolution on the clone, write-through-the-result probe); plus seeded random "
         "sequences of AddStyle/RemoveStyle/CreateCustomStyle/queries/listings/Clone; judged step by step by StyleInh_Trace.tla")
 
-ALLOPS = {"AddStyle", "RemoveStyle", "Create", "Edit", "Resolve", "ToXML", "Info", "List", "MutRes", "CloneSwap", "CloneDrop"}
+ALLOPS = {"AddStyle", "RemoveStyle", "Create", "Edit", "Resolve", "ToXML", "Info", "List", "MutRes", "CloneSwap", "CloneDrop",
+          "Clone", "OnClone"}
+KINDS = ["name", "case", "space"]     # StyleInh!AliasKinds
+PAIR_OPS = {"AddStyle", "RemoveStyle", "Edit", "Resolve", "Clone", "OnClone"}
 
 
-def enumcfg(ctx, name, n, ymodes, tail):
-    return ctx.cfg(name, "SpecEnum", {"NStyles": n, "TwoSlots": True, "YModes": set(ymodes), "TailMode": tail,
+def enumcfg(ctx, name, n, ymodes, plans, kinds=(), reads=()):
+    return ctx.cfg(name, "SpecEnum", {"NStyles": n, "TwoSlots": True, "YModes": set(ymodes), "Kinds": set(kinds),
+                                      "Plans": set(plans), "CloneReads": set(reads),
                                       "Depth": 0, "OpNames": set()}, invariants=["EmitEnum", "Inv_EnumSound"])
 
 
-def simcfg(ctx, name, n, depth):
-    return ctx.cfg(name, "SpecGen", {"NStyles": n, "TwoSlots": True, "YModes": set(), "TailMode": "none",
-                                     "Depth": depth, "OpNames": ALLOPS}, invariants=["Emit"])
+def simcfg(ctx, name, n, depth, kinds):
+    return ctx.cfg(name, "SpecGen", {"NStyles": n, "TwoSlots": True, "YModes": set(), "Kinds": set(kinds), "Plans": set(),
+                                     "CloneReads": set(), "Depth": depth, "OpNames": ALLOPS}, invariants=["Emit"])
+
+
+def paircfg(ctx, name, n):
+    """The pair (registry, copy) as a machine: snapshot + isolation, stated as action properties."""
+    return ctx.cfg(name, "SpecMC", {"NStyles": n, "TwoSlots": False, "YModes": set(), "Kinds": set(), "Plans": set(),
+                                    "CloneReads": set(), "Depth": 0, "OpNames": PAIR_OPS},
+                   invariants=["Inv_Terminates", "Inv_Found", "Inv_Undef", "Inv_ReadOnly", "Inv_CopySound"],
+                   properties=["Act_Snapshot", "Act_Isolated", "Act_ReadOnly", "Act_OwnWins"], view="MCView")
 
 
 def exec_grouped(ctx, cases, tag, nb=12):
@@ -110,18 +122,23 @@ def pipeline(ctx, cases_by=None):
         return ctx.finish(LEVEL, RULE)
 
     ctx.tlc_mc("StyleInh_MC.tla", "StyleInh_MC_quick.cfg" if q else "StyleInh_MC_two.cfg", timeout=600)
+    ctx.tlc_mc("StyleInh_MC.tla", paircfg(ctx, "pair.cfg", 1 if q else 2), timeout=600)
     # (the 4-style registries are checked against the same design-level statements while they are
     #  enumerated: Inv_EnumSound in enum4.cfg; StyleInh_MC_thorough.cfg is the stand-alone 4-style run)
 
     bounds = {}
     if q:
-        cases = ctx.tlc_gen("StyleInh_MC.tla", enumcfg(ctx, "enum3.cfg", 3, ["compl"], "none"), "enum3", timeout=600)
+        cases = ctx.tlc_gen("StyleInh_MC.tla", enumcfg(ctx, "enum3.cfg", 3, ["compl"], ["plain"]), "enum3", timeout=600)
         bounds["enum3"] = "3 styles: 5^3 basedOn graphs x 2^3 masks of x, y exactly where x is not x 4 queried ids"
     else:
-        cases = ctx.tlc_gen("StyleInh_MC.tla", enumcfg(ctx, "enum3.cfg", 3, ["free"], "clone"), "enum3", timeout=900)
+        cases = ctx.tlc_gen("StyleInh_MC.tla", enumcfg(ctx, "enum3.cfg", 3, ["free"], ["clone"]), "enum3", timeout=900)
         bounds["enum3"] = "3 styles: 5^3 basedOn graphs x 2^3 masks of x x 2^3 masks of y (independent) x 4 queried ids; tail: clone ops"
     allobs = [exec_grouped(ctx, cases, "enum3")]
-    cases = ctx.tlc_gen("StyleInh_MC.tla", enumcfg(ctx, "rmr2.cfg", 2, ["compl"] if q else ["free"], "rmr+clone" if q else "rmr"),
+    reads = ["Resolve", "ToXML"]
+    if q:
+        reads = [reads[(ctx.seed + 1) % 2]]     # seed 1: Resolve
+    cases = ctx.tlc_gen("StyleInh_MC.tla", enumcfg(ctx, "rmr2.cfg", 2, ["compl"] if q else ["free"],
+                                                   ["rmr", "clone", "alias"] if q else ["rmr", "alias"], KINDS, reads),
                         "rmr2", timeout=600)
     bounds["rmr2"] = ("2 styles: every registry (y %s) x every queried style id: resolve, then every single AddStyle / "
                       "RemoveStyle / CreateCustomStyle, then resolve again" % ("exactly where x is not" if q else "independent"))
@@ -129,7 +146,7 @@ def pipeline(ctx, cases_by=None):
         bounds["rmr2"] += "; and the same registries x 3 queried ids with tail: clone ops, resolution on the clone"
     allobs.append(exec_grouped(ctx, cases, "rmr2"))
     if not q:
-        cases = ctx.tlc_gen("StyleInh_MC.tla", enumcfg(ctx, "enum4.cfg", 4, ["compl"], "none"), "enum4", timeout=1200)
+        cases = ctx.tlc_gen("StyleInh_MC.tla", enumcfg(ctx, "enum4.cfg", 4, ["compl"], ["plain"]), "enum4", timeout=1200)
         bounds["enum4"] = "4 styles: 6^4 basedOn graphs x 2^4 masks of x, y exactly where x is not x 5 queried ids"
         obs = exec_grouped(ctx, cases, "enum4")
         judge(ctx, obs, "enum4")
@@ -137,7 +154,8 @@ def pipeline(ctx, cases_by=None):
     ctx.exhaustive = True
 
     d = 7 if q else 12
-    sim = ctx.tlc_gen("StyleInh_MC.tla", simcfg(ctx, "gen_sim.cfg", 3 if q else 4, d), "sim", mode="sim",
+    kinds = [KINDS[ctx.seed % 3]] if q else KINDS      # seed 1: case, 2: space, 3: name
+    sim = ctx.tlc_gen("StyleInh_MC.tla", simcfg(ctx, "gen_sim.cfg", 3 if q else 4, d, kinds), "sim", mode="sim",
                       num=45 if q else 400, depth=d + 1, limit=1500 if q else 12000)
     bounds["sim"] = "%d random operation sequences of length %d over %d styles, all 10 operations" % (len(sim), d, 3 if q else 4)
     allobs.append(ctx.run_exec("styleinh", sim, "sim", shards=12))
